@@ -631,7 +631,11 @@ class IndexedOperand(Operand):
         self.type = OperandType.INDEXED
         self.operand_string = operand_string
         try:
-            self.value = Value.create_from_str(self.operand_string, self.instruction)
+            # A bare pointer register (e.g. LDB X) is the zero offset form ,X
+            zero_offset = operand_string in ["X", "Y", "U", "S"]
+            self.value = Value.create_from_str(
+                ",{}".format(operand_string) if zero_offset else operand_string, self.instruction
+            )
         except ValueTypeError:
             raise OperandTypeError("[{}] is not an indexed value".format(operand_string))
         if not self.value.is_leftright():
